@@ -29,6 +29,7 @@ PROP_MODULES = {
     "C03": ["c03"],
     "C10": ["c01", "c03", "c10"],
     "C16": ["c16"],
+    "C20": ["c20"],
 }
 
 
